@@ -108,10 +108,7 @@ func (a *EpochBitmapAllocator) Allocate(ctx context.Context, subscriberID string
 		return a.indexToIP(idx), nil
 	}
 
-	// Find a free slot
-	threshold := a.freeThreshold()
-
-	// Start from hint for faster allocation
+	// Find a free slot, starting from the hint for faster allocation
 	for i := uint64(0); i < a.totalIPs; i++ {
 		idx := (a.nextFreeHint + i) % a.totalIPs
 
@@ -120,8 +117,7 @@ func (a *EpochBitmapAllocator) Allocate(ctx context.Context, subscriberID string
 			continue
 		}
 
-		gen := a.getGeneration(idx)
-		if a.isGenerationFree(gen, threshold) {
+		if a.slotFree(idx) {
 			// Found free slot - allocate it
 			a.setGeneration(idx, a.currentGeneration())
 			a.subscribers[subscriberID] = idx
@@ -236,6 +232,9 @@ func (a *EpochBitmapAllocator) AdvanceEpoch() uint64 {
 		if a.isGenerationFree(gen, threshold) {
 			delete(a.subscribers, subscriberID)
 			delete(a.ipToSubscriber, idx)
+			if idx < a.nextFreeHint {
+				a.nextFreeHint = idx
+			}
 		}
 	}
 
@@ -254,15 +253,9 @@ func (a *EpochBitmapAllocator) Stats() (allocated, total uint64, utilization flo
 	a.mu.RLock()
 	defer a.mu.RUnlock()
 
-	// Count active allocations (not expired)
-	threshold := a.freeThreshold()
-	active := uint64(0)
-	for idx := uint64(1); idx < a.totalIPs-1; idx++ {
-		gen := a.getGeneration(idx)
-		if !a.isGenerationFree(gen, threshold) {
-			active++
-		}
-	}
+	// Count active allocations: expired holders are removed by AdvanceEpoch,
+	// released ones by Release, so every remaining holder is live.
+	active := uint64(len(a.subscribers))
 
 	// Total usable IPs (excluding network and broadcast)
 	usable := a.totalIPs - 2
@@ -288,7 +281,17 @@ func (a *EpochBitmapAllocator) freeThreshold() byte {
 	return byte((a.currentEpoch - a.gracePeriod) % 4)
 }
 
-// isGenerationFree checks if a generation value indicates a free slot.
+// slotFree reports whether a slot can be handed out: nobody holds it.
+// Release and the expiry sweep in AdvanceEpoch remove holders from ipToSubscriber,
+// so membership is authoritative. The 2-bit generation alone cannot tell a
+// never-used, released or long-expired slot from a current one once the epoch
+// counter has moved on (generation 0 is "current" again every 4 epochs).
+func (a *EpochBitmapAllocator) slotFree(idx uint64) bool {
+	_, held := a.ipToSubscriber[idx]
+	return !held
+}
+
+// isGenerationFree checks if a generation value indicates an expired lease.
 func (a *EpochBitmapAllocator) isGenerationFree(gen, threshold byte) bool {
 	current := a.currentGeneration()
 
